@@ -82,12 +82,12 @@ Definition c01_case (i r : sexp) : verdict :=
                   | Some (Some why, _) =>
                       if shadowing_risk_prog p then VViol ("class=capture-under-binder " ++ name ++ " " ++ why)
                       else if calls_main_prog p then VViol ("class=call-to-main-e2e " ++ name ++ " " ++ why)
-                      else if negb (effect_sequenced p) then VSkip ("mismatch in a program whose effects are not sequenced (argument evaluation order unspecified): " ++ name)
+                      else if negb (args_effect_free p) then VSkip ("mismatch in a program whose effects are not sequenced (argument evaluation order unspecified): " ++ name)
                       else VViol ("class=end-to-end-mismatch " ++ name ++ " " ++ why)
                   | _ =>
                       VOk ((if Nat.eqb compared 0 then "nocompare" else "nt") ++ " runs" ++ n_to_string (N.of_nat compared)
                            ++ (if shadowing_risk_prog p then " shadowing" else " no-shadow")
-                           ++ (if effect_sequenced p then " sequenced" else " unsequenced")
+                           ++ (if effect_sequenced p then " sequenced" else if args_effect_free p then " byname-effects" else " unsequenced")
                            ++ (if in_composed_theorem p then " thm-middle" else " outside-thm"))
                   end
               end
